@@ -103,7 +103,7 @@ func c02GenChunks(s *verifh.Session) []string {
 
 func TestVerif_C02_ops(t *testing.T) {
 	s := verifh.New(t, "C02", "ops",
-		"scripted transport body (0..5 segments of 0..32769 random bytes, ends with EOF or error) x config {auto-read, Client/Request.DisableAutoReadResponse, SetOutput, SetOutputFile} x status {101,150,200,201,204,301,304,404,500} x 0..8 observation ops {ToBytes,ToString,Bytes,String,Body.Read(n),io.ReadAll(Body),Body.Close}; real pipeline Transport.RoundTrip->http.Client->Client.roundTrip->middlewares; non-trivial = non-empty body and >=2 ops")
+		"scripted transport body (0..5 segments of 0..32769 random bytes, ends with EOF or error) x config {auto-read, Client/Request.DisableAutoReadResponse, SetOutput, SetOutputFile, SetSuccessResult (JSON body)} x status {101,150,200,201,204,301,304,404,500} x 0..8 observation ops {ToBytes,ToString,Bytes,String,Body.Read(n),io.ReadAll(Body),Body.Close}; real pipeline Transport.RoundTrip->http.Client->Client.roundTrip->middlewares; non-trivial = non-empty body and >=2 ops")
 	r := s.Rand()
 	dir := t.TempDir()
 	n := verifh.N(1500, 40000)
@@ -134,6 +134,22 @@ func TestVerif_C02_ops(t *testing.T) {
 			cdis, rdis = r.Intn(2) == 0, true
 			save = r.Intn(3) == 0
 		}
+		// a success-result object (SetSuccessResult): parseResponseBody then reads the body
+		// itself; with SetOutput the download copies the cached bytes. The body is JSON in
+		// these cases so that unmarshalling succeeds.
+		result := r.Intn(5) == 0
+		if result {
+			js := `{"k":"` + verifh.RandBytes(r, r.Intn(300), "abcdefghijklmnopqrstuvwxyz0123456789 ") + `","n":[1,2,3]}`
+			chunks = nil
+			for len(js) > 0 {
+				k := 1 + r.Intn(60)
+				if k > len(js) {
+					k = len(js)
+				}
+				chunks = append(chunks, js[:k])
+				js = js[k:]
+			}
+		}
 		nops := r.Intn(9)
 		var ops []string
 		for i := 0; i < nops; i++ {
@@ -150,7 +166,7 @@ func TestVerif_C02_ops(t *testing.T) {
 			}
 			return "0"
 		}
-		cfg := "c" + b01(cdis) + "r" + b01(rdis) + "s" + b01(save)
+		cfg := "c" + b01(cdis) + "r" + b01(rdis) + "s" + b01(save) + "j" + b01(result)
 		opsStr := "-"
 		if len(ops) > 0 {
 			opsStr = strings.Join(ops, ",")
@@ -190,6 +206,10 @@ func TestVerif_C02_ops(t *testing.T) {
 			if rdis {
 				rq.DisableAutoReadResponse()
 			}
+			var resultObj interface{}
+			if result {
+				rq.SetSuccessResult(&resultObj)
+			}
 			var w *c02Writer
 			var fpath string
 			if save {
@@ -218,6 +238,10 @@ func TestVerif_C02_ops(t *testing.T) {
 			}
 			var obs []string
 			auto := !cdis && !rdis && !save && status > 199
+			unmarshalled := result && status > 199 && status < 300 && status != 204
+			if unmarshalled && fin == "eof" && (string(resp.Bytes()) != whole || resultObj == nil) {
+				propOK = false // the result object was filled from exactly the body
+			}
 			var streamed []byte // bytes the caller pulled out of the live stream, in order
 			complete := false
 			closedBefore := false
@@ -300,7 +324,7 @@ func TestVerif_C02_ops(t *testing.T) {
 			}
 			// oracle: the live stream is handed out in order, nothing invented or repeated, and
 			// when the caller reached the end it has seen exactly the transport body
-			if !save {
+			if !save && !(unmarshalled && !auto) {
 				if !bytes.HasPrefix([]byte(whole), streamed) {
 					propOK = false
 				}
@@ -329,6 +353,12 @@ func TestVerif_C02_ops(t *testing.T) {
 			s.Count("mode:auto")
 		}
 		s.Count("fin:" + fin)
+		if result {
+			s.Count("with-result-object")
+			if save {
+				s.Count("result+save")
+			}
+		}
 		if len(whole) == 0 {
 			s.Count("body:empty")
 		}
